@@ -203,3 +203,52 @@ def decide_by_assignments(test, events):
         return None
     res = (is_none == want_none)
     return (not res) if neg else res
+
+
+def bool_atoms(test):
+    """maximal sub-expressions of a test that are not and/or/not; negative comparison operators are made positive"""
+    out = []
+
+    def walk(t):
+        if isinstance(t, ast.BoolOp):
+            for v in t.values:
+                walk(v)
+        elif isinstance(t, ast.UnaryOp) and isinstance(t.op, ast.Not):
+            walk(t.operand)
+        else:
+            out.append(t)
+    walk(test)
+    return out
+
+
+def _atom_key(t):
+    if isinstance(t, ast.Compare) and len(t.ops) == 1 and isinstance(t.ops[0], (ast.IsNot, ast.NotEq, ast.NotIn)):
+        pos = {ast.IsNot: ast.Is, ast.NotEq: ast.Eq, ast.NotIn: ast.In}[type(t.ops[0])]
+        return ast.unparse(ast.Compare(left=t.left, ops=[pos()], comparators=t.comparators)), True
+    return ast.unparse(t), False
+
+
+def implied_atoms(test, truth):
+    """{atom text: bool} for the atoms whose value is forced by `test == truth` (truth-table over at most 10 atoms)."""
+    atoms = bool_atoms(test)
+    keys = []
+    for a in atoms:
+        k, _ = _atom_key(a)
+        if k not in keys:
+            keys.append(k)
+    if len(keys) > 10:
+        return {}
+    forced = None
+    for bits in range(1 << len(keys)):
+        asg = {k: bool(bits >> i & 1) for i, k in enumerate(keys)}
+
+        def atom(e):
+            if isinstance(e, (ast.BoolOp,)) or (isinstance(e, ast.UnaryOp) and isinstance(e.op, ast.Not)):
+                return None
+            k, flipped = _atom_key(e)
+            if k in asg:
+                return (not asg[k]) if flipped else asg[k]
+            return None
+        if eval_bool(test, atom) is truth:
+            forced = dict(asg) if forced is None else {k: v for k, v in forced.items() if asg[k] == v}
+    return forced or {}
